@@ -103,6 +103,34 @@ func TestC18(t *testing.T) {
 		if g.Chance(25, "withIgnore") {
 			do(Step{Op: "write", Path: ".goitignore", Data: g.IgnoreFile()})
 		}
+		// a drawn amount of history, so that mid-life states (several commits, branches, a renamed
+		// branch, an emptied snapshot) are as common as fresh ones
+		if e.Cur.HasGoit && e.Cur.Goit.Files["config"] != "" || e.Cur.Home.Files[".goitconfig"] != "" {
+			n := g.Int(0, 4, "historyCommits")
+			for i := 0; i < n; i++ {
+				p := g.NewPath()
+				do(Step{Op: "write", Path: p, Data: g.SmallContent()})
+				do(goit("add", p))
+				do(goit("commit", "-m", g.Message(true)))
+				switch g.Int(0, 9, "between") {
+				case 0:
+					do(nextStep(g, Weights{"switch-c": 1}))
+				case 1:
+					do(nextStep(g, Weights{"branch-r": 1}))
+				case 2:
+					do(nextStep(g, Weights{"branch": 1}))
+				case 3:
+					if i > 0 {
+						do(goit("reset", "--soft", "HEAD@{1}"))
+					}
+				case 4:
+					if len(e.Cur.IdxMap) > 0 {
+						do(nextStep(g, Weights{"rm-all": 1}))
+						do(goit("commit", "-m", "emptied"))
+					}
+				}
+			}
+		}
 		rt.Repeat(map[string]func(*rapid.T){
 			"step": func(rt *rapid.T) {
 				g := &G{T: rt, E: e}
